@@ -1,7 +1,120 @@
 """Sensitivity canaries: in-memory mutants of mashumaro (never /repo) that the
-check must flag; run in forked workers so the parent stays clean."""
+check must flag.  Each runs in a forked worker so the parent stays clean; a
+canary that is not detected within its budget is a harness failure (exit 2)."""
 from __future__ import annotations
+
+from .run import HarnessFailure, run_index, run_pool
+
+
+def mutant_c14():
+    """the lazy/postponed stub forgets the generic type arguments (K2 reverted)"""
+    from mashumaro.core.meta.code.builder import CodeBuilder
+    orig = CodeBuilder.__init__
+
+    def bad(self, cls, type_args=(), *a, **kw):
+        if kw.get("allow_postponed_evaluation") is False:
+            type_args = ()
+        orig(self, cls, type_args, *a, **kw)
+
+    CodeBuilder.__init__ = bad
+    return {"force": {"generic": True, "lazy": "all", "threads": False, "aborts": False,
+                      "n_outer": 3}, "batch": "seq"}
+
+
+def mutant_c12():
+    """only direct subclasses are walked when the variant registry is refilled"""
+    import mashumaro.core.meta.types.unpack as U
+
+    def direct_only(cls):
+        return iter(cls.__subclasses__())
+
+    direct_only.__name__ = "iter_all_subclasses"
+    U.iter_all_subclasses = direct_only
+    return {"batch": "hist"}
+
+
+def mutant_c13():
+    """Dialect.merge drops serialize_by_alias again (K6 reverted)"""
+    from mashumaro.core.const import Sentinel
+    from mashumaro.dialect import Dialect
+    orig = Dialect.merge.__func__
+
+    def bad(cls, other):
+        new = orig(cls, other)
+        new.serialize_by_alias = Sentinel.MISSING
+        return new
+
+    Dialect.merge = classmethod(bad)
+    return {"batch": "codec", "force": {"cfg_opts": True}}
+
+
+def mutant_c15():
+    """the one-shot encode() goes through a differently configured path"""
+    import mashumaro.codecs.basic as B
+    orig = B.encode
+
+    def bad(obj, shape_type):
+        out = orig(obj, shape_type)
+        if isinstance(out, dict):
+            out = {k: (v.upper() if isinstance(v, str) else v) for k, v in out.items()}
+        return out
+
+    B.encode = bad
+    return {"batch": "hist"}
+
+
+def mutant_c20():
+    """build_json_schema works on a copy of the builder's definitions"""
+    import mashumaro.jsonschema.builder as JB
+    Base = JB.Context
+
+    class CopyingContext(Base):
+        def __init__(self, *a, **kw):
+            if "definitions" in kw:
+                kw["definitions"] = dict(kw["definitions"])
+            super().__init__(*a, **kw)
+
+    JB.Context = CopyingContext
+    return {"batch": "hist", "force": {"selfref": False, "schema_omit": False, "generic": False}}
+
+
+MUTANTS = {"C12": mutant_c12, "C13": mutant_c13, "C14": mutant_c14, "C15": mutant_c15,
+           "C20": mutant_c20}
+BUDGET = {"C12": 400, "C13": 400, "C14": 300, "C15": 200, "C20": 200}
+
+
+def canary_task(prop, seed, start, n):
+    """apply the mutant in this (forked) process and search for a violation"""
+    from . import plans
+    from .run import load_findings
+    from . import features
+    extra = MUTANTS[prop]()
+    profile = plans.profile_for(prop, extra.get("batch", "seq"), [])
+    profile["force"].update(extra.get("force", {}))
+    known = [e for e in load_findings() if e.get("status") == "open"]
+    base = 9_000_000
+    for i in range(start, start + n):
+        r = run_index(prop, seed, base + i, profile, minimise=False)
+        if r["violation"]:
+            rec = r["violation"]["record"]
+            if any(features.matches(e, rec) for e in known):
+                continue
+            return {"detected_after_runs": i + 1, "class": r["violation"]["class"]}
+    return None
 
 
 def run_canaries(prop, seed, jobs):
-    return {"note": "not implemented yet"}
+    if prop not in MUTANTS:
+        return {"note": "no canary"}
+    budget = BUDGET[prop]
+    per = 10
+    tasks = [(canary_task, (prop, seed, s, per)) for s in range(0, budget, per)]
+    results, _ = run_pool(tasks, jobs, on_result=lambda r: bool(r))
+    hits = [r for r in results if r]
+    if not hits:
+        raise HarnessFailure(
+            f"sensitivity canary for {prop} ({MUTANTS[prop].__doc__}) was not detected in {budget} runs")
+    best = min(hits, key=lambda r: r["detected_after_runs"])
+    return {"mutant": MUTANTS[prop].__doc__, "detected": True,
+            "first_detection_run": best["detected_after_runs"], "class": best["class"],
+            "budget_runs": budget}
